@@ -327,11 +327,43 @@ func init() {
 			if !s.Drain(1, 300) {
 				c.Rep.Inconclusive++
 			}
-			// catch-up: let the firing cycle run without the clock moving much
+			// catch-up: let the firing cycle run without the clock moving much. A schedule that is due when the
+			// catch-up begins must have advanced at least once when it ends (40 ticks, at most 4 schedules)
+			dueAt := map[string]int64{}
+			for id, sr := range s.snap.S {
+				if _, _, err := CronNext(sr.Cron, sr.Next); err == nil && sr.Next <= s.now {
+					dueAt[id] = sr.Next
+				}
+			}
+			f0 := s.failures
+			cyc0 := len(s.bgInst["SchedulePromises"])
+			// the oldest due occurrence is first in every starvation-free order
+			oldest, oldestNext := "", int64(0)
+			for id, n := range dueAt {
+				if oldest == "" || n < oldestNext || (n == oldestNext && id < oldest) {
+					oldest, oldestNext = id, n
+				}
+			}
+			for id := range dueAt {
+				if id != oldest {
+					delete(dueAt, id)
+				}
+			}
 			for i := 0; i < 40; i++ {
 				s.Tick(s.now + cfg.BgPeriod)
 			}
 			s.Drain(1, 100)
+			for i := 0; i < 20; i++ {
+				s.Tick(s.now + cfg.BgPeriod)
+			}
+			if s.failures == f0 && len(s.bgInst["SchedulePromises"])-cyc0 >= len(s.snap.S)+2 {
+				for id, n0 := range dueAt {
+					if sr := s.snap.S[id]; sr != nil && sr.Next == n0 && s.mon.deletedAck[id] == 0 {
+						s.mon.violate("C10,C11", "row:due-schedule-never-advanced", fmt.Sprintf("schedule %s was due (next run %d) when the clients fell silent and has not advanced in 60 background ticks", id, n0))
+					}
+				}
+				s.mon.hit("schedule.catch-up-progress-checked")
+			}
 		},
 	})
 }
